@@ -47,17 +47,19 @@ def OutRel : SOut → Out → Prop
   | .exit k, .exit k' => k = k'
   | _, _ => False
 
-/-- the shell body of `e` does what its source body does, in every later state of the program -/
+/-- the shell body of `e` does what its source body does, in every later state of the program (when the body ends
+    the program - `exit` - only the printed lines matter) -/
 def BodySim (e : FEntry) (T : List FEntry) : Prop :=
   ∀ (Tr : List FEntry) (c : SCfg) (m : Cfg) (vals : List Val) (fuel : Nat) (o : SOut) (c2 : SCfg),
     (e :: T) <:+ Tr → (tnames Tr).Nodup → c.funs = srcTable Tr → m.funs = shTable Tr → AgreeG c m →
     vals.length = e.fd.params.length →
     execSs fuel e.fd.body { c with lenv := bindParams (fun _ => none) e.fd.params vals, inFn := true } = some (o, c2) →
-    ∃ m2 o', ExecCmds e.body { m with args := vals.map Val.render, saved := [] } o' m2 ∧ OutRel o o' ∧
-      AgreeG c2 m2 ∧ c2.funs = c.funs ∧ m2.funs = m.funs ∧
-      (∀ vs, o = .ret vs → ValsRv 0 vs m2.ρ) ∧
-      (∀ x, ¬ Touched e.j e.b x → m2.ρ x = m.ρ x) ∧
-      (∀ p ∈ m2.saved, ∃ a, p.1 = fnPrefix e.j ++ a)
+    ∃ m2 o', ExecCmds e.body { m with args := vals.map Val.render, saved := [] } o' m2 ∧ OutRel o o' ∧ c2.out = m2.out ∧
+      ((∀ k, o ≠ .exit k) →
+        AgreeG c2 m2 ∧ c2.funs = c.funs ∧ m2.funs = m.funs ∧
+        (∀ vs, o = .ret vs → ValsRv 0 vs m2.ρ) ∧
+        (∀ x, ¬ Touched e.j e.b x → m2.ρ x = m.ρ x) ∧
+        (∀ p ∈ m2.saved, ∃ a, p.1 = fnPrefix e.j ++ a))
 
 def TableOK : List FEntry → Prop
   | [] => True
@@ -163,9 +165,15 @@ def lineTargets : Line → List String
 def OwnT (ctx : Ctx) (hi : Nat) (x : String) : Prop :=
   (∃ k, x = ctx.hn k) ∨ (∃ k, x = ctx.tn k) ∨ (∃ v g, goodName2 v = true ∧ x = ctx.mg v g) ∨ (∃ i, x = rvName i) ∨ (∃ n, n < hi ∧ x = flagName n)
 
-/-- a line of context `ctx`: assigns only what the context owns, calls only functions of `ds` -/
+/-- lines that only the head of a function definition has -/
+def isDefLine : Line → Bool
+  | .localAssign _ _ => true
+  | .funcStart _ => true
+  | _ => false
+
+/-- a line of context `ctx`: assigns only what the context owns, calls only functions of `ds`, is no part of a function head -/
 def SLine (ctx : Ctx) (hi : Nat) (ds : List String) (l : Line) : Prop :=
-  (∀ x ∈ lineTargets l, OwnT ctx hi x) ∧ (∀ name args, l = .callFn name args → name ∈ ds)
+  (∀ x ∈ lineTargets l, OwnT ctx hi x) ∧ (∀ name args, l = .callFn name args → name ∈ ds) ∧ isDefLine l = false
 
 def LinesOK (ctx : Ctx) (hi : Nat) (ds : List String) (ls : List Line) : Prop := ∀ l ∈ ls, SLine ctx hi ds l
 
@@ -196,12 +204,13 @@ theorem LinesOK.mono {ctx : Ctx} {hi hi' : Nat} {ds : List String} {a : List Lin
   · exact Or.inr (Or.inr (Or.inr (Or.inr ⟨n, by omega, h⟩)))
 
 /-- a line that assigns one helper variable -/
-theorem sline_helper (ctx : Ctx) (hi : Nat) (ds : List String) (l : Line) (k : Nat) (h1 : lineTargets l = [ctx.hn k]) (h2 : isCall l = false) :
-    SLine ctx hi ds l :=
-  ⟨fun x hx => by rw [h1] at hx; simp at hx; exact Or.inl ⟨k, hx⟩, fun name args e => by subst e; simp [isCall] at h2⟩
+theorem sline_helper (ctx : Ctx) (hi : Nat) (ds : List String) (l : Line) (k : Nat) (h1 : lineTargets l = [ctx.hn k]) (h2 : isCall l = false)
+    (h3 : isDefLine l = false := by rfl) : SLine ctx hi ds l :=
+  ⟨fun x hx => by rw [h1] at hx; simp at hx; exact Or.inl ⟨k, hx⟩, fun name args e => by subst e; simp [isCall] at h2, h3⟩
 
-theorem sline_plain (ctx : Ctx) (hi : Nat) (ds : List String) (l : Line) (h1 : lineTargets l = []) (h2 : isCall l = false) : SLine ctx hi ds l :=
-  ⟨fun x hx => by rw [h1] at hx; simp at hx, fun name args e => by subst e; simp [isCall] at h2⟩
+theorem sline_plain (ctx : Ctx) (hi : Nat) (ds : List String) (l : Line) (h1 : lineTargets l = []) (h2 : isCall l = false)
+    (h3 : isDefLine l = false := by rfl) : SLine ctx hi ds l :=
+  ⟨fun x hx => by rw [h1] at hx; simp at hx, fun name args e => by subst e; simp [isCall] at h2, h3⟩
 
 /-- the result of running the lines `new` (latest first) of an expression -/
 def RunsW (wv : Bool) (ctx : Ctx) (T : List FEntry) (B : Nat) (new : List Line) (lo n : Nat) (ts : List String) (m : Cfg) : R (List Opd) → Prop
